@@ -169,3 +169,15 @@ Proof.
   - apply ids_mem_In in H. rewrite H. reflexivity.
   - destruct (ids_mem x s) eqn:E; [apply ids_mem_In in E; contradiction|reflexivity].
 Qed.
+
+(* writing through the dictionary that m[e] hands out is writing to the mapping: the flat views (len, bool, iteration) see it *)
+Theorem inner_setitem_is_dict : forall m e d v m', inner_setitem m e d v = Ok m' ->
+  (forall e' d', dd m' e' d' = if andb (Nat.eqb e e') (Z.eqb d d') then Some v else dd m e' d') /\
+  om_len m' = length (om_iter m') /\ (om_bool m' = true <-> om_iter m' <> []).
+Proof.
+  intros m e d v m' H. unfold inner_setitem in H. destruct (om_get e m); [|discriminate]. injection H as <-.
+  split; [intros; apply setitem_off_is_dict|]. destruct (flat_view (setitem_off m e d v)) as (A & B & _). split; assumption.
+Qed.
+
+Theorem inner_setitem_missing : forall m e d v, om_get e m = None -> inner_setitem m e d v = Err KeyErr.
+Proof. intros m e d v H. unfold inner_setitem. rewrite H. reflexivity. Qed.
